@@ -4,8 +4,9 @@ import MosnVerif.Model.Route
 Driver for C04 case lines (harness/c04/c04.go):
 
 ```
-C04 <kind> <nvh> { vh <ndom> <dom>… <nrules> { r <prefix> <path> <rx> <nvars> {<name> <value> <rx> <model>}… <nhdrs> {<name> <value> <isregex> <rxid> <rxok>}… }… }…
-           req <nvars> {<name> <value|!>}… <nhdrs> {<name> <value>}…  rx <n> {<id> <input> <0|1>}…
+C04 <kind> <nvh> { vh <ndom> <dom>… <nrules> { r <prefix> <path> <rx> <nvars> {<name> <value> <rx> <model>}… <nhdrs> {<name> <value> <isregex> <rxid> <rxok>}…
+                                                     <ndsl> {<empty 0|1> <id> <compiles 0|1>}… }… }…
+           req <nvars> {<name> <value|!>}… <nhdrs> {<name> <value>}…  rx <n> {<id> <input> <0|1>}…  dx <n> {<id> <t|f|e>}…
     => <errorName> | panic | ok <vhostIndex|-1> <vh.rule|none> <vh.rule,…|->
 ```
 strings are percent-escaped (`%` alone = empty), `!` = unset / no regex, `<rx>` = `<id>:<compiles 0|1>`.
@@ -93,7 +94,9 @@ def ruleCfg : P MatchCfg := do
   let vars ← rep nv varCfg
   let nh ← nat
   let hdrs ← rep nh hdrCfg
-  pure ⟨pre, path, rx, vars, hdrs⟩
+  let nd ← nat
+  let dsl ← rep nd (do let e ← bit; let i ← nat; let ok ← bit; pure (⟨e, i, ok⟩ : DslCfg))
+  pure ⟨pre, path, rx, vars, hdrs, dsl⟩
 
 def vhCfg : P VHostCfg := do
   lit "vh"
@@ -115,6 +118,7 @@ structure Case where
   vars : List (Str × Option Str)
   hdrs : List (Str × Str)
   rxTab : List (Nat × Str × Bool)
+  dxTab : List (Nat × Option Bool)
 
 def caseP : P Case := do
   let n ← nat
@@ -127,7 +131,14 @@ def caseP : P Case := do
   lit "rx"
   let nr ← nat
   let tab ← rep nr (do let i ← nat; let s ← str; let b ← bit; pure (i, s, b))
-  pure ⟨cfg, vars, hdrs, tab⟩
+  lit "dx"
+  let nx ← nat
+  let dtab ← rep nx (do
+    let i ← nat
+    let t ← next
+    if t == "t" then pure (i, some true) else if t == "f" then pure (i, some false)
+    else if t == "e" then pure (i, (none : Option Bool)) else failure)
+  pure ⟨cfg, vars, hdrs, tab, dtab⟩
 
 def lookupStr {β : Type} (l : List (Str × β)) (k : Str) : Option β :=
   match l.find? (fun kv => kv.1 = k) with
@@ -135,7 +146,10 @@ def lookupStr {β : Type} (l : List (Str × β)) (k : Str) : Option β :=
   | none => none
 
 def Case.req (c : Case) : Req :=
-  { var := fun k => (lookupStr c.vars k).join, hdr := fun k => lookupStr c.hdrs k }
+  { var := fun k => (lookupStr c.vars k).join, hdr := fun k => lookupStr c.hdrs k,
+    dsl := fun i => match c.dxTab.find? (fun r => r.1 = i) with
+      | some r => r.2
+      | none => none }
 
 def Case.rx (c : Case) : RxOracle := fun id s =>
   match c.rxTab.find? (fun r => r.1 = id ∧ r.2.1 = s) with
@@ -149,7 +163,10 @@ def Case.rxComplete (c : Case) : Bool :=
     m.variables.flatMap (fun v => match v.regex with | some r => if r.ok then [r.id] else [] | none => []) ++
     m.headers.flatMap (fun h => if h.regex && h.rx.ok then [h.rx.id] else [])))
   let inputs : List Str := [] :: (c.vars.filterMap (·.2) ++ c.hdrs.map (·.2))
-  ids.all (fun i => inputs.all (fun s => c.rxTab.any (fun r => r.1 = i ∧ r.2.1 = s)))
+  let dids : List Nat := c.cfg.flatMap (fun vh => vh.routers.flatMap (fun m =>
+    m.dsl.filterMap (fun d => if !d.empty && d.ok then some d.id else none)))
+  ids.all (fun i => inputs.all (fun s => c.rxTab.any (fun r => r.1 = i ∧ r.2.1 = s))) &&
+  dids.all (fun i => c.dxTab.any (fun r => r.1 = i))
 
 def errName : Err → String
   | .nilConfig => "nilConfig"
@@ -185,7 +202,7 @@ def run (caseToks impl : List String) : String :=
   | _kind :: toks =>
     match caseP toks with
     | some (c, []) =>
-      if !c.rxComplete then "E E regex-table-incomplete" else
+      if !c.rxComplete then "E E oracle-table-incomplete" else
       let m := model c
       let i := joinWith " " impl
       let agree := m == i
